@@ -5,15 +5,15 @@ CLAIMED = {
  'C01': ('proof', 'structural Coq lemmas (all Ops): every element-wise operation of the 7 float vector types in 5 tables is the lane-wise primitive; for the multi-instruction SSE2 operations the code is proved to apply the lane functions floor/ceil/trunc/round_lane of FloatTricks.v, which are proved (Flocq) equal to IEEE roundToIntegral in the respective direction and to the Rust primitive for every binary32; predicates/reductions as boolean/fold formulas; differential correspondence', 'every operation is stated as the lane-wise primitive (or an IEEE-equal lane function); SSE2 % is a known finding (floored remainder), pinned by a second lemma (DESIGN 12.3); libm spelled-out euclid/signum forms are differential only; NEON/wasm32 not translated'),
  'C02': ('proof', 'algebraic Coq lemmas over an arbitrary field: dot, cross, perp_dot, length(_squared/_recip), distance(_squared), element sum/product, project/reject, reflect, normalize, try_normalize/normalize_or(_zero) (every path), refract (both paths), angle_between/angle_to = arccos of the textbook cosine (acos_approx abstracted) - the exact real-arithmetic value the property measures against; 7 types x 3 backends', 'PARTIAL: the rounding-error bounds (few epsilon times sum of magnitudes) and the accuracy of acos_approx are NOT proved; exercised differentially only'),
  'C03': ('proof', 'algebraic Coq lemmas over an arbitrary field: determinant = Leibniz, inverse = adjugate/det, products, entry-wise ops; 7 types x 3 backends', 'partial: rounding-error bounds and lattice exactness are differential only'),
- 'C04': ('proof', 'algebraic Coq lemmas over an arbitrary field: Hamilton product, conjugate, q*v = vec(q v conj q) for every q; rotation laws in QuatAlg.v', 'partial: rounding-error bounds are not proved'),
+ 'C04': ('proof', 'algebraic Coq lemmas over an arbitrary field: Hamilton product, conjugate, q*v = vec(q v conj q) for every q; rotation laws in QuatAlg.v; structural lemmas: component-wise quaternion operators are the lane-wise primitive', 'partial: rounding-error bounds are not proved'),
  'C05': ('proof', 'algebraic / structural Coq lemmas: from_quat for every matrix and affine type = the same R(q); Mat3<->Mat3A, embeddings into Mat4, Affine<->matrix conversions carry the same entries; affine product and inverse formulas; f32<->f64 entry-wise; matrix -> quaternion: each of the four branches returns the stated formulas, which recover +-q from R(q) over the reals (FromMatAlg.v)', 'partial: float-level agreement of conversion chains is differential only'),
  'C06': ('proof', 'structural Coq lemmas: every accessor/constructor/minor/col/row/transpose as entry moves, M*v and affine transforms as sums, 11 types x 3 backends', 'trusted: column-major entry view in harness/props/C06.py'),
  'C07': ('proof', 'identity of the +fma and default translations except mul_add (both the fused primitive, C01); C03/C04 lemma families for three backends against common formulas; 4-build differential run', 'partial: LLVM not contracting FP ops is observed, not modelled; re-association slack observed not derived'),
  'C08': ('proof', 'non-interference lemmas (all Ops with Rust integer semantics): result modulo hidden lanes is the same for two independent hidden-lane contents', 'partial: lemmas not decided within the long per-lemma limit are listed in the evidence'),
  'C09': ('proof', 'algebraic Coq lemmas: axis-angle = Rodrigues / (a sin, cos), single-axis rotations, all 24 Euler orders as products of elementary rotations / quaternions; RotAlg.v (orthonormal, det 1, quaternion-matrix agreement)', 'partial: the extraction direction (to_euler ...) is not proved - crate round trips with the epsilon/distance tolerance only; sin/cos uninterpreted (odd/even); no bit-level correspondence for trigonometric results'),
- 'C10': ('proof', 'algebraic Coq lemmas: every SRT constructor = translation * rotation * scale entries, 10 types x 3 backends', 'partial: decomposition (to_scale_rotation_translation) is differential only'),
- 'C11': ('proof', 'algebraic Coq lemmas: perspective_*/orthographic_* = documented matrices, project/transform = M(p,1)/w, look_to/look_at view matrices of the matrix and affine types = the documented rows and translation; frustum facts in ProjAlg.v', 'partial: Quat::look_to_* is differential only'),
- 'C12': ('proof', 'algebraic Coq lemmas: lerp = a(1-s)+bs, midpoint, any_orthonormal_vector/pair = the Duff et al. construction (laws in InterpAlg.v), clamp_length/_min/_max and move_towards on every path', 'partial: slerp, quaternion lerp, rotate_towards, from_rotation_arc, any_orthogonal_vector are differential (and C18 panic-freedom) only'),
+ 'C10': ('proof', 'algebraic Coq lemmas: every SRT constructor = translation * rotation * scale entries, 10 types x 3 backends; to_scale_rotation_translation / to_scale_angle_translation formulas', 'partial: the decomposition functions are stated modularly (scale, axes handed to the matrix->quaternion conversion, translation); that recomposition returns the input is not proved'),
+ 'C11': ('proof', 'algebraic Coq lemmas: perspective_*/orthographic_* = documented matrices, project/transform = M(p,1)/w, look_to/look_at view matrices of the matrix and affine types = the documented rows and translation; frustum facts in ProjAlg.v', 'partial: Quat/DQuat look_to are stated modularly (matrix->quaternion conversion abstracted)'),
+ 'C12': ('proof', 'algebraic Coq lemmas: lerp = a(1-s)+bs, midpoint, any_orthonormal_vector/pair = the Duff et al. construction (laws in InterpAlg.v), clamp_length/_min/_max, move_towards and quaternion slerp on every path (acos_approx / m128_sin abstracted)', 'partial: vector slerp, quaternion lerp, rotate_towards, from_rotation_arc, any_orthogonal_vector are differential (and C18 panic-freedom) only'),
  'C13': ('proof', 'structural Coq lemmas (all Ops): every table method of the 27 integer vector types = lane-wise/left-fold primitive; IntSpec.v ties compare-select forms to min/max/clamp/positions over Z', 'trusted: ZInt semantics in Sem.v validated differentially'),
  'C14': ('proof', 'structural Coq lemmas (all Ops): as_*, From, TryFrom, mask-to-number, pair/extend/truncate conversions lane by lane', 'trusted: cast semantics of Sem.v validated on boundary values'),
  'C15': ('proof', 'structural Coq lemmas: cmp*/select on all vector types; mask algebra on the five mask types (SSE2 register masks by exhaustive enumeration in the IEEE instance); test/set panic outside 0..N', 'partial: Hash/Debug/Display of masks not modelled'),
